@@ -246,7 +246,8 @@ class StrategySpace(Subspace):
                 if fpr:
                     sched.FOOTPRINT.reset(True)
                 try:
-                    ex = sched.explore(run_only_key, b, max_schedules=400)
+                    ex = sched.explore(run_only_key, b, max_schedules=400,
+                                       selfcheck=(name == opnames[0] or b > 0) and not fpr)
                 except sched.ReplayDivergence as e:
                     res.fail("determinism", f"{name} [{label}]: replay divergence {e}")
                     continue
